@@ -569,7 +569,28 @@ fn twin(cfg: &SutConfig, ops: &[Op]) -> Arc<Outcome> {
 
 // ------------------------------------------------------------------------------------------------ the case
 
+/// A progress verdict (O4: a differential between two executions of a concurrent system, each with background tasks)
+/// is reported only when it is a function of the case: the case is executed a second time with a freshly computed
+/// twin, and a verdict that does not come back is counted (`O4-verdict-not-reproduced`), not reported. Two thorough
+/// runs on a machine shared with other builds each produced one such verdict in ~14 000 cases (an artifact of the last
+/// round missing at the end) whose replay passes every time; every seeded change and mutant is deterministic and is
+/// still reported.
 pub fn run_case(c: &Case, tolerated: &[String]) -> Report {
+    let first = run_case_once(c, tolerated);
+    let is_o4 = matches!(&first.outcome, vcore::Outcome::Violation { key, .. } if key.starts_with("O4-"));
+    if !is_o4 {
+        return first;
+    }
+    TWINS.lock().unwrap().remove(&history_key(&c.cfg, &c.ops));
+    crate::run::clear_sticky();
+    let mut second = run_case_once(c, tolerated);
+    if !second.is_violation() {
+        second.label("O4-verdict-not-reproduced");
+    }
+    second
+}
+
+fn run_case_once(c: &Case, tolerated: &[String]) -> Report {
     let mut rep = Report::new();
     let tw = twin(&c.cfg, &c.ops);
     if let Some((k, w)) = &tw.violation {
